@@ -309,6 +309,10 @@ def c05(run):
     random_round(run, "hosts", run.seed, 1000 if q else 10000, hosts, "mixed", 3 if q else 4, 14, selftest=True)
     # the legacy capability API host, on the part of the family it can express
     random_round(run, "legacy", run.seed + 5, 2400 if q else 24000, ["core_legacy"], "mixed", 2, 18, budget=9)
+    # AppTester (not one of the hosts the property lists; the host every app's unit tests use): same executor,
+    # events handed back instead of applied, fed back later in an order the test chooses
+    mc_and_replay(run, "scripts", 5 if q else 7, ["ReadyClosed"], ["tester"], cap=600 if q else 10000)
+    random_round(run, "tester", run.seed + 9, 400 if q else 6000, ["tester"], "mixed", 3, 20, selftest=True)
     # no wake-up lost inside one executor, whoever hosts it: ExecProtocol.tla on the repository's own tests
     proto_mc(run)
     proto_suite(run, selftest=True)
